@@ -1131,12 +1131,24 @@ func (v Value) addField(key string, idx int, val Value) {
 	v.value.(*structT).Fields.Set(idx, val)
 }
 
+// syncFields brings the type v, declared before, up to date with its new declaration b. The fields are listed in
+// the order of the new declaration, followed by the fields only the old one had; the old list is left as it is for
+// the instances that share it.
 func (v Value) syncFields(b Value) {
 	cur := b.value.(*structT)
-	for key, idx := range cur.Lookup {
+	old := v.value.(*structT).Order
+	for _, key := range cur.Order {
+		idx := cur.Lookup[key]
 		value, _ := cur.Fields.Get(idx)
 		v.addField(key, idx, value)
 	}
+	order := append([]string{}, cur.Order...)
+	for _, key := range old {
+		if _, ok := cur.Lookup[key]; !ok {
+			order = append(order, key)
+		}
+	}
+	v.value.(*structT).Order = order
 }
 
 func (v Value) addMethod(key string, idx int, val Value) {
